@@ -522,7 +522,7 @@ func quantShuffled[S, D constraints.Integer](w *numWriter, rng *rand.Rand, fn, s
 	for i := range blk {
 		blk[i] = xs[rng.Intn(len(xs))]
 	}
-	repeatDistinct(conv, blk, 150, func(x S, y D) {
+	repeatDistinct(conv, blk, 600, func(x S, y D) {
 		pts = append(pts, pt{x, y})
 		w.emit(&NEvent{Op: "P", X: numOfInt(x), Y: numOfInt(y)})
 	})
